@@ -1,6 +1,9 @@
 (* C28 — redirects Tornado derives from the request path: web.removeslash,
    web.addslash, StaticFileHandler.validate_absolute_path's directory redirect,
-   web.authenticated.  Text = list of code points.  Definitions only. *)
+   web.authenticated, all through RequestHandler.redirect; around them the request
+   line / Host validation (httputil), uri.partition("?"), request.full_url(), the
+   method dispatch of RequestHandler._execute, urlsplit(login_url).scheme and
+   urlencode(dict(next=...)).  Text = list of code points.  Definitions only. *)
 From Coq Require Import List NArith Bool Arith.
 Import ListNotations.
 Local Open Scope N_scope.
@@ -8,6 +11,8 @@ Local Open Scope N_scope.
 Definition text := list N.
 Definition SLASH : N := 47.
 Definition QMARK : N := 63.
+Definition BACKSLASH : N := 92.
+Definition COLON : N := 58.
 
 Fixpoint text_eqb (a b : text) : bool :=
   match a, b with
@@ -28,24 +33,58 @@ Definition starts_with_2slash (p : text) : bool :=
   match p with a :: b :: _ => (a =? SLASH) && (b =? SLASH) | _ => false end.
 
 Definition mem_text (c : N) (t : text) : bool := existsb (N.eqb c) t.
+Definition mem_texts (m : text) (l : list text) : bool := existsb (text_eqb m) l.
 
 Definition GET : text := [71;69;84].
 Definition HEAD : text := [72;69;65;68].
+Definition POST : text := [80;79;83;84].
+Definition DELETE : text := [68;69;76;69;84;69].
+Definition PATCH : text := [80;65;84;67;72].
+Definition PUT : text := [80;85;84].
+Definition OPTIONS : text := [79;80;84;73;79;78;83].
 Definition is_get_or_head (m : text) : bool := text_eqb m GET || text_eqb m HEAD.
+(* RequestHandler.SUPPORTED_METHODS *)
+Definition SUPPORTED_METHODS : list text := [GET; HEAD; POST; DELETE; PATCH; PUT; OPTIONS].
 
 Inductive outcome :=
-| Redirect (status : N) (location : text)
-| Status (code : N)          (* HTTPError(code) raised by the decorator *)
-| CallHandler.               (* the wrapped method runs *)
+| Redirect (status : N) (location : text)   (* location = the bytes of the Location header *)
+| Status (code : N)          (* HTTPError(code) / an uncaught exception (500) / HTTPInputError (400) *)
+| CallHandler                (* the wrapped method runs *)
+| HeadersSent.               (* redirect() raised because the response had already started *)
 
 Definition with_query (uri query : text) : text :=
   match query with [] => uri | _ => uri ++ QMARK :: query end.
 
-(* RequestHandler.redirect sends utf8(url); the header block is written as latin-1,
-   so a code point >= 128 reaches the wire as its UTF-8 bytes *)
-Definition utf8_small (c : N) : list N :=      (* code points < 2048 *)
-  if c <? 128 then [c] else [192 + c / 64; 128 + c mod 64].
-Definition wire (t : text) : text := flat_map utf8_small t.
+(* ---------- escape.utf8 : str.encode("utf-8") ---------- *)
+Definition utf8_cp (c : N) : list N :=
+  if c <? 128 then [c]
+  else if c <? 2048 then [192 + c / 64; 128 + c mod 64]
+  else if c <? 65536 then [224 + c / 4096; 128 + (c / 64) mod 64; 128 + c mod 64]
+  else [240 + c / 262144; 128 + (c / 4096) mod 64; 128 + (c / 64) mod 64; 128 + c mod 64].
+(* encodable code points: not a surrogate, at most U+10FFFF (else UnicodeEncodeError) *)
+Definition valid_cp (c : N) : bool := (c <? 55296) || ((57343 <? c) && (c <? 1114112)).
+Definition wire (t : text) : text := flat_map utf8_cp t.
+
+(* RequestHandler._VALID_HEADER_CHARS on the latin-1 view of the value bytes *)
+Definition valid_header_byte (b : N) : bool :=
+  (b =? 9) || ((32 <=? b) && (b <=? 126)) || (128 <=? b).
+
+(* RequestHandler.redirect(url, permanent, status) *)
+Definition redirect (headers_written : bool) (url : text) (permanent : bool) (status : option N) : outcome :=
+  if headers_written then HeadersSent
+  else
+    match (match status with
+           | None => Some (if permanent then 301 else 302)
+           | Some s => if (300 <=? s) && (s <=? 399) then Some s else None      (* assert *)
+           end) with
+    | None => Status 500
+    | Some st =>
+        if forallb valid_cp url then
+          let b := wire url in
+          if forallb valid_header_byte b then Redirect st b
+          else Status 500                                   (* ValueError("Unsafe header value") *)
+        else Status 500                                     (* UnicodeEncodeError *)
+    end.
 
 (* @removeslash *)
 Definition removeslash (meth path query : text) : outcome :=
@@ -55,7 +94,7 @@ Definition removeslash (meth path query : text) : outcome :=
       match uri with
       | [] => CallHandler                                  (* don't redirect '/' to '' *)
       | _ => if starts_with_2slash uri then Status 403
-             else Redirect 301 (wire (with_query uri query))
+             else redirect false (with_query uri query) true None
       end
     else Status 404
   else CallHandler.
@@ -66,7 +105,7 @@ Definition addslash (meth path query : text) : outcome :=
     if is_get_or_head meth then
       let uri := path ++ [SLASH] in
       if starts_with_2slash uri then Status 403
-      else Redirect 301 (wire (with_query uri query))
+      else redirect false (with_query uri query) true None
     else Status 404
   else CallHandler.
 
@@ -75,11 +114,28 @@ Definition addslash (meth path query : text) : outcome :=
 Definition static_dir (path : text) : outcome :=
   if negb (ends_with_slash path) then
     if starts_with_2slash path then Status 403
-    else Redirect 301 (wire (path ++ [SLASH]))
+    else redirect false (path ++ [SLASH]) true None
   else CallHandler.
 
-(* urllib.parse.quote_plus applied to a str whose code points are < 256
-   (request text is latin-1 decoded): UTF-8 encode, keep unreserved, ' ' -> '+' *)
+(* what os.path says about abspath(join(root, url_unescape(captured path))) — the environment *)
+Inductive fsres := FsOutside | FsDir | FsFile | FsMissing.
+
+(* StaticFileHandler.get up to validate_absolute_path (no conditional / range headers) *)
+Definition static_get (has_default : bool) (fs : fsres) (index_exists : bool) (path : text) : outcome :=
+  match fs with
+  | FsOutside => Status 403
+  | FsDir =>
+      if has_default then
+        match static_dir path with
+        | CallHandler => if index_exists then CallHandler else Status 404
+        | o => o
+        end
+      else Status 403                                       (* "is not a file" *)
+  | FsFile => CallHandler
+  | FsMissing => Status 404
+  end.
+
+(* ---------- urllib.parse.quote_plus (via urlencode(dict(next=...))) ---------- *)
 Definition is_unreserved (b : N) : bool :=
   ((48 <=? b) && (b <=? 57)) || ((65 <=? b) && (b <=? 90)) || ((97 <=? b) && (b <=? 122))
   || (b =? 95) || (b =? 46) || (b =? 45) || (b =? 126).
@@ -87,22 +143,122 @@ Definition hexdigit (n : N) : N := if n <? 10 then 48 + n else 55 + n.   (* uppe
 Definition pct (b : N) : text := [37; hexdigit (b / 16); hexdigit (b mod 16)].
 Definition quote_byte (b : N) : text :=
   if is_unreserved b then [b] else if b =? 32 then [43] else pct b.
-Definition quote_plus (s : text) : text := flat_map (fun c => flat_map quote_byte (utf8_small c)) s.
+Definition quote_plus (s : text) : text := flat_map quote_byte (wire s).
+
+(* characters that are not URL delimiters: unreserved, "%", "+" *)
+Definition url_safe (c : N) : bool := is_unreserved c || (c =? 37) || (c =? 43).
+
+(* urllib.parse.unquote_plus on bytes (what the login page's parse_qs applies to the value) *)
+Definition hexval (c : N) : option N :=
+  if (48 <=? c) && (c <=? 57) then Some (c - 48)
+  else if (65 <=? c) && (c <=? 70) then Some (c - 55)
+  else if (97 <=? c) && (c <=? 102) then Some (c - 87)
+  else None.
+Fixpoint unquote_plus (s : text) : text :=
+  match s with
+  | [] => []
+  | c :: r =>
+      if c =? 43 then 32 :: unquote_plus r
+      else if c =? 37 then
+        match r with
+        | a :: b :: r' =>
+            match hexval a, hexval b with
+            | Some x, Some y => (16 * x + y) :: unquote_plus r'
+            | _, _ => c :: unquote_plus r
+            end
+        | _ => c :: unquote_plus r
+        end
+      else c :: unquote_plus r
+  end.
 
 Definition NEXT_EQ : text := [110;101;120;116;61].   (* "next=" *)
 
-(* @authenticated, for a request without a current user.
-   abs_login = urlsplit(login_url).scheme is non-empty (configuration, computed by the stdlib);
-   full_url = request.full_url(), uri = request.uri *)
-Definition authenticated (meth login_url : text) (abs_login : bool) (full_url uri : text) : outcome :=
-  if is_get_or_head meth then
-    if mem_text QMARK login_url then Redirect 302 login_url
-    else
-      let next_url := if abs_login then full_url else uri in
-      Redirect 302 (login_url ++ QMARK :: NEXT_EQ ++ quote_plus next_url)
+(* RFC 3986 scheme ":" at the start of a reference: ALPHA *( ALPHA / DIGIT / "+" / "-" / "." ) ":" *)
+Definition is_alpha (c : N) : bool := ((65 <=? c) && (c <=? 90)) || ((97 <=? c) && (c <=? 122)).
+Definition is_scheme_char (c : N) : bool :=
+  is_alpha c || ((48 <=? c) && (c <=? 57)) || (c =? 43) || (c =? 45) || (c =? 46).
+Fixpoint scheme_rest (s : text) : bool :=
+  match s with
+  | [] => false
+  | c :: s' => if c =? 58 then true else if is_scheme_char c then scheme_rest s' else false
+  end.
+Definition has_scheme (s : text) : bool :=
+  match s with c :: s' => is_alpha c && scheme_rest s' | [] => false end.
+
+(* bool(urllib.parse.urlsplit(url).scheme)  (CPython 3.12): lstrip C0 controls and space,
+   delete TAB/CR/LF anywhere, then  i = find(':') > 0, url[0] an ASCII letter, url[:i] scheme chars *)
+Fixpoint lstrip_c0 (s : text) : text :=
+  match s with c :: s' => if c <=? 32 then lstrip_c0 s' else s | [] => [] end.
+Definition is_tab_nl (c : N) : bool := (c =? 9) || (c =? 10) || (c =? 13).
+Definition urlsplit_has_scheme (url : text) : bool :=
+  has_scheme (filter (fun c => negb (is_tab_nl c)) (lstrip_c0 url)).
+
+(* HTTPServerRequest.full_url() on a plain-HTTP connection *)
+Definition HTTP_PREFIX : text := [104;116;116;112;58;47;47].    (* "http://" *)
+Definition full_url (host uri : text) : text := HTTP_PREFIX ++ host ++ uri.
+
+(* @authenticated; login = settings.get("login_url") (None: require_setting raises),
+   user = bool(self.current_user) *)
+Definition authenticated (meth : text) (login : option text) (user : bool) (host uri : text) : outcome :=
+  if user then CallHandler
+  else if is_get_or_head meth then
+    match login with
+    | None => Status 500
+    | Some url =>
+        if mem_text QMARK url then redirect false url false None
+        else
+          let next_url := if urlsplit_has_scheme url then full_url host uri else uri in
+          if forallb valid_cp next_url then
+            redirect false (url ++ QMARK :: NEXT_EQ ++ quote_plus next_url) false None
+          else Status 500                                   (* UnicodeEncodeError in urlencode *)
+    end
   else Status 403.
 
-(* what the property demands of a Location derived from the request path *)
+(* ---------- request line, Host header, dispatch ---------- *)
+Definition is_digit (c : N) : bool := (48 <=? c) && (c <=? 57).
+Definition is_alnum (c : N) : bool := is_alpha c || is_digit c.
+(* _ABNF.tchar *)
+Definition is_tchar (c : N) : bool :=
+  is_alnum c || mem_text c [33;35;36;37;38;39;42;43;45;46;94;95;96;124;126].
+(* _ABNF.field_vchar *)
+Definition is_vchar (c : N) : bool := ((33 <=? c) && (c <=? 126)) || ((128 <=? c) && (c <=? 255)).
+Definition nonempty (t : text) : bool := match t with [] => false | _ => true end.
+Definition valid_method (m : text) : bool := nonempty m && forallb is_tchar m.
+Definition valid_target (t : text) : bool := nonempty t && forallb is_vchar t.
+
+Definition is_hex (c : N) : bool := is_digit c || ((65 <=? c) && (c <=? 70)) || ((97 <=? c) && (c <=? 102)).
+(* unreserved / sub-delims / "[" "]" ":" *)
+Definition host_char (c : N) : bool :=
+  is_alnum c || mem_text c [45;46;95;126; 33;36;38;39;40;41;42;43;44;59;61; 91;93;58].
+Fixpoint valid_host_chars (h : text) : bool :=
+  match h with
+  | [] => true
+  | c :: r =>
+      if c =? 37 then
+        match r with
+        | a :: b :: r' => is_hex a && is_hex b && valid_host_chars r'
+        | _ => false
+        end
+      else host_char c && valid_host_chars r
+  end.
+(* _ABNF.host.fullmatch(host) and "," not in host *)
+Definition valid_host (h : text) : bool := valid_host_chars h && negb (mem_text 44 h).
+
+(* str.partition("?") -> (path, query) *)
+Fixpoint partition_q (uri : text) : text * text :=
+  match uri with
+  | [] => ([], [])
+  | c :: r => if c =? QMARK then ([], r) else let (p, q) := partition_q r in (c :: p, q)
+  end.
+
+(* RequestHandler._execute: 405 for a method outside SUPPORTED_METHODS or one the handler
+   class leaves as _unimplemented_method *)
+Definition dispatch (defined : list text) (m : text) (body : outcome) : outcome :=
+  if negb (mem_texts m SUPPORTED_METHODS) then Status 405
+  else if negb (mem_texts m defined) then Status 405
+  else body.
+
+(* ---------- location classifiers (what the property demands) ---------- *)
 Definition same_host_path (loc : text) : bool :=
   match loc with
   | a :: rest => (a =? SLASH) && negb (match rest with b :: _ => b =? SLASH | [] => false end)
@@ -119,18 +275,15 @@ Fixpoint is_prefix (p s : text) : bool :=
   | _ :: _, [] => false
   end.
 
-(* RFC 3986 scheme ":" at the start of a reference: ALPHA *( ALPHA / DIGIT / "+" / "-" / "." ) ":" *)
-Definition is_alpha (c : N) : bool := ((65 <=? c) && (c <=? 90)) || ((97 <=? c) && (c <=? 122)).
-Definition is_scheme_char (c : N) : bool :=
-  is_alpha c || ((48 <=? c) && (c <=? 57)) || (c =? 43) || (c =? 45) || (c =? 46).
-Fixpoint scheme_rest (s : text) : bool :=
-  match s with
-  | [] => false
-  | c :: s' => if c =? 58 then true else if is_scheme_char c then scheme_rest s' else false
-  end.
-Definition has_scheme (s : text) : bool :=
-  match s with c :: s' => is_alpha c && scheme_rest s' | [] => false end.
-
 (* the property's demand on a Location derived from the request path *)
 Definition safe_location (loc : text) : bool :=
   negb (starts_with_2slash loc) && negb (has_scheme loc).
+
+(* a stricter reading: browsers treat "\" as "/" in http(s) URLs *)
+Definition unbackslash (t : text) : text := map (fun c => if c =? BACKSLASH then SLASH else c) t.
+Definition browser_same_host (loc : text) : bool := same_host_path (unbackslash loc).
+Definition second_is_backslash (p : text) : bool :=
+  match p with _ :: b :: _ => b =? BACKSLASH | _ => false end.
+
+(* the part of a URL before the first "?" *)
+Definition before_qmark (t : text) : text := fst (partition_q t).
